@@ -56,6 +56,7 @@ impl Prop for C03 {
     }
     fn check(c: &Case, ctx: &mut Ctx) -> CheckResult {
         let inp = inputs(&c.base.b, &c.base.f)?;
+        crate::common::label_long(ctx, &c.base.b);
         let sc = inp.scales(c.base.area);
         let ks = [0.0f32, 1.0, c.k1, c.k2];
         let mut fl: Vec<Flat> = vec![];
